@@ -783,3 +783,68 @@ func KeywordGuard(p *core.Prog, r *core.Report) {
 	r.Count("keyword_helper_calls", n)
 	r.Floor("keyword_helper_calls", 20)
 }
+
+// EnumConvert — the enum group compares the instance, converted to the type of the member at hand, with
+// that member (the direction matters: converting the member to the instance's type truncates/wraps).
+func EnumConvert(p *core.Prog, r *core.Report) {
+	const rule = "ENUM-CONVERT"
+	f := p.Func("(*basicCommonValidator).Validate")
+	if f == nil {
+		r.Unk(rule, "anchor", "-", "(*basicCommonValidator).Validate not found")
+		return
+	}
+	var data *ssa.Parameter
+	for _, prm := range f.Params {
+		if prm.Name() == "data" {
+			data = prm
+		}
+	}
+	n, ok := 0, true
+	why := ""
+	core.EachInstr(f, func(i ssa.Instruction) {
+		c, is := core.IsCallTo(i, "reflect.DeepEqual")
+		if !is {
+			return
+		}
+		n++
+		args := c.Common().Args
+		a, b := through(args[0]), through(args[1])
+		// b: the enum member = element of the receiver's Enum list
+		member := func(v ssa.Value) bool {
+			ld, is := v.(*ssa.UnOp)
+			if !is {
+				return false
+			}
+			ia, is := ld.X.(*ssa.IndexAddr)
+			if !is {
+				return false
+			}
+			pth, has := core.StablePath(ia.X)
+			return has && strings.HasSuffix(pth, ".Enum")
+		}
+		if !member(b) {
+			ok, why = false, "the second operand of DeepEqual is not the enum member"
+			return
+		}
+		ic, is1 := isCallOf(a, "reflect.Value.Interface")
+		if !is1 {
+			ok, why = false, "the first operand is not a converted reflect value"
+			return
+		}
+		cv, is2 := isCallOf(ic.Call.Args[0], "reflect.Value.Convert")
+		if !is2 {
+			ok, why = false, "no conversion"
+			return
+		}
+		vo, is3 := isCallOf(cv.Call.Args[0], "reflect.ValueOf")
+		tc, is4 := isCallOf(cv.Call.Args[1], "reflect.TypeOf")
+		if !is3 || !is4 || through(vo.Call.Args[0]) != ssa.Value(data) || through(tc.Call.Args[0]) != b {
+			ok, why = false, "the value converted is not the instance, or the target type is not the type of the member compared"
+		}
+	})
+	if n > 0 && ok {
+		r.OK(rule, "basicCommonValidator", p.Pos(f.Pos()), "DeepEqual(ValueOf(data).Convert(TypeOf(member)).Interface(), member)")
+	} else {
+		r.Bad(rule, "basicCommonValidator", p.Pos(f.Pos()), "enum membership is not decided by comparing the instance converted to the member's type with that member: "+why)
+	}
+}
